@@ -1142,6 +1142,28 @@ func (timeComp) Gen(rng *rand.Rand, tier string) [][]string {
 	}
 	ms := int(time.Millisecond)
 	var hs [][]string
+	// directed: a sweep that leaves a long-lived survivor, then short-lived (re-)additions of other / the same key, then sweeps
+	// after the short span has elapsed (any bookkeeping a sweep keeps about "nothing can expire before …" must see later adds)
+	nDirected := 3
+	if tier == "thorough" {
+		nDirected = 30
+	}
+	for d := 0; d < nDirected; d++ {
+		kind := pick(rng, "tc", "tc", "peer")
+		h := []string{fmt.Sprintf("begin timecache kind=%s span=%d", kind, 60*ms)}
+		long := pick(rng, 3000, 5000) * ms
+		short := pick(rng, 40, 60, 80) * ms
+		h = append(h, fmt.Sprintf("upsert 0a %d -", long), "sweep", "has 0a")
+		if kind == "peer" {
+			h = append(h, fmt.Sprintf("upsert 0b %d -", short))
+		} else if d%2 == 0 {
+			h = append(h, fmt.Sprintf("addspan 0b %d -", short))
+		} else {
+			h = append(h, "add 0b - -", fmt.Sprintf("addspan 0a %d -", short)) // default span (60ms); the long-lived key is re-added with a short span
+		}
+		h = append(h, "has 0b", "sleep "+fmt.Sprint(250*ms), "sweep", "has 0b", "has 0a", "sleep "+fmt.Sprint(100*ms), "sweep", "has 0b", "has 0a")
+		hs = append(hs, h)
+	}
 	for i := 0; i < nh; i++ {
 		kind := pick(rng, "tc", "tc", "peer", "cacher")
 		if kind == "cacher" {
